@@ -5,8 +5,13 @@ phase 2 of expireKeysIteration are separate atomic labels interleaved with publi
 clock ticks (Model/MapExpiry.lean).
 Tie (sequential, clock-driven): the real MemoryMapBroker runs under testing/synctest on timelines where keys
 expire, are refreshed just before / at / after the deadline and around the sweeper's tick, are removed or
-republished around the deadline; the Lean driver runs the same lines.  The phase-1/phase-2 interleavings
-cannot be forced without a source hook; they are covered by the Lean theorems over the model's labels.
+republished around the deadline; the Lean driver runs the same lines.
+Tie (interleavings, gated by the BrokerEventHandler): `hook` lines register a reaction to the sweeper's removal
+broadcast of a key: an operation issued inside that HandlePublication call lands after phase 1 collected the other
+due keys and before phase 2 reaches them; an operation issued concurrently while the call is in flight exercises the
+publish-lock ordering of the removal's broadcast.  The Lean driver replays these as label sequences
+`phase1; phase2; pub|rm|clear; phase2; …` of the MapExpiry transition system.  Only the window between phase 1 and
+the FIRST phase-2 region is not reachable this way (covered by the theorems over the model's labels).
 Oracle: the statement on the implementation's own output: per key, removals in the stream alternate with
 publications (never two removals in a row, never a removal of a key that is not there), every stream entry was
 broadcast exactly once, after the horizon no TTL key is left, and the expiry broadcasts are exactly those of
@@ -83,11 +88,85 @@ def gen_scenario(rng, nops=30):
     return lines
 
 
+def gen_hook_scenario(rng):
+    """Interleavings inside one sweep, gated by the event handler: two keys X, Y of two channels with different
+    publish locks become due in the same sweep with distinct deadlines (X first).  A hook on X's expiry removal
+    issues an operation on Y *after phase 1 collected Y and before phase 2 processes it* (republish, keep-alive,
+    if_exists update, remove, clear, unrelated key, suppressed if_new).  A `co` hook republishes a key of the SAME
+    channel from another goroutine while its removal broadcast is in flight (publish-lock ordering)."""
+    while True:
+        ttl = [rng.randint(400, 990) + rng.choice([0, 1000]), 0, rng.choice([500, 700, 1500])]
+        ttl[1] = ttl[0] // 1000 * 1000 + rng.randint(400, 990)
+        ta = rng.randint(1, 30)
+        tb = ta + rng.randint(1, 30)
+        da, db = ta + ttl[0], tb + ttl[1]
+        if da != db and (da + 999) // 1000 == (db + 999) // 1000:
+            break
+    modes = [rng.choice("RRE"), rng.choice("RRE"), rng.choice("RE")]
+    lines = ["reset " + " ".join("c%d=%s:%d:0:%d" % (i, modes[i], ttl[i], rng.randint(0, 1)) for i in range(3))]
+    ref = refmap.Ref()
+    ref.line(lines[0])
+
+    def emit(l):
+        lines.append(l)
+        ref.line(l)
+    kx, ky, kz = KEYS
+    emit(pub(0, kx, ta, 1, tag=rng.choice([0, 5])))
+    emit(pub(1, ky, tb - ta, 2, tag=rng.choice([0, 5])))
+    first, second = (0, 1) if da < db else (1, 0)
+    if rng.random() < 0.5:
+        # a bystander key, due in the same or next sweep.  It lives in the FIRST key's channel: after a concurrent
+        # (`co`) reaction the sweeper and the reacting goroutine race for the publish lock of that channel, so the
+        # concurrently republished key must be the last due key of its channel in that sweep
+        bch, bdt = first, rng.randint(1, 20)
+        if ref.now + bdt + ttl[bch] not in (da, db):                  # no equal deadlines: heap tie order is unspecified
+            emit(pub(bch, kz, bdt, 3))
+    kf, ks = (kx, ky) if first == 0 else (ky, kx)
+    rco = rng.random()
+    r = rng.random()
+    if rco < 0.6:
+        r *= 0.9    # with a concurrent reaction on that channel no second publish may land there in the same ms (deadline tie)
+    if r < 0.25:
+        op = pub(second, ks, 0, 10)                                   # republish before phase 2 reaches it
+    elif r < 0.45:
+        op = pub(second, ks, 0, 11, mode="n", rtos=1)                 # keep-alive
+    elif r < 0.55:
+        op = pub(second, ks, 0, 12, mode="x")                         # if_exists update
+    elif r < 0.65:
+        op = pub(second, ks, 0, 13, mode="n", rtos=0)                 # suppressed without refresh: still expires
+    elif r < 0.80:
+        op = "rm ch=%d key=%s dt=0 idem=0 ittl=0 cas=- tag=0" % (second, hx(ks))
+    elif r < 0.90:
+        op = "clear ch=%d dt=0" % second
+    else:
+        op = pub(second, kz, 0, 14)
+    emit("hook ch=%d key=%s kind=in dt=%d | %s" % (first, hx(kf), rng.randint(0, 3), op))
+    r = rco
+    if r < 0.45:
+        # while the removal of the second key is being delivered, the same key is republished concurrently
+        emit("hook ch=%d key=%s kind=co dt=0 | %s" % (second, hx(ks), pub(second, ks, 0, 20, tag=rng.choice([0, 7]))))
+    elif r < 0.6:
+        emit("hook ch=%d key=%s kind=co dt=0 | %s" % (second, hx(ks), pub(second, kz, 0, 21)))
+    tick = (max(da, db) + 999) // 1000 * 1000
+    emit("adv dt=%d" % (tick - ref.now + rng.choice([0, 1, 500])))
+    for ch in (0, 1):
+        emit("state ch=%d dt=0 lim=-1 cur=- key=- asc=0 rev=-" % ch)
+    if rng.random() < 0.5:
+        emit(pub(second, ks, rng.randint(1, 50), 30, mode=rng.choice("rn"), rtos=1))
+    emit("adv dt=9000")     # beyond every deadline, also of keys republished by a hook that fires late
+    for ch in range(3):
+        emit("state ch=%d dt=0 lim=-1 cur=- key=- asc=0 rev=-" % ch)
+        emit("stream ch=%d dt=0 since=- lim=-1 rev=0" % ch)
+    return lines
+
+
 def parse_bcs(s):
     out = []
     if s in ("-", None):
         return out
     for b in s.split(","):
+        if b.startswith("hk:"):      # result of a hooked operation, not a broadcast
+            continue
         p = b.split("/")
         # ch/key/off/removed/data/tag/score/time/pos/delta/prev
         out.append({"ch": int(p[0]), "key": p[1], "off": int(p[2]), "rm": p[3] == "1", "time": int(p[7]), "pos": p[8]})
@@ -112,7 +191,7 @@ def oracle(lines, im):
                     return ("broadcast position %s differs from the publication offset %d" % (b["pos"], b["off"]),
                             {"what": "bcast-offset", "removed": b["rm"]})
         for b in parse_bcs(f.get("sw")):
-            if not b["rm"]:
+            if not b["rm"] and "hk:" not in f.get("sw", ""):   # a hooked operation's own broadcast is expected there
                 return ("the sweeper broadcast a non-removal", {"what": "sweep-nonremoval"})
     for k, n in bcast.items():
         if n != 1:
@@ -159,11 +238,18 @@ def run(ctx):
                 "after it: d-2, d-1, d, d+1, t-1, t, t+1, t+999, t+1000; ops: publish, keep-alive (if_new + RefreshTTLOnSuppress), "
                 "suppressed if_new without refresh, if_exists update, remove, clear, read; finally the clock runs 4 s past every "
                 "deadline and state + stream of every channel are read; non-trivial = at least one expiry removal and one refresh "
-                "or removal within 2 ms of a deadline/tick; distinct = distinct scenario text")
+                "or removal within 2 ms of a deadline/tick; distinct = distinct scenario text.  PLUS interleaving scenarios gated by "
+                "the event handler (`hook` lines): two keys of two channels due in the same sweep with distinct deadlines; "
+                "inside the HandlePublication call of the first removal (after phase 1 collected both, before phase 2 "
+                "reaches the second) the second key is republished / kept alive / updated / removed / its channel cleared / "
+                "a suppressed if_new is issued; and a concurrent republish of the same key while its expiry removal is "
+                "being delivered (publish-lock ordering of broadcasts).  The Lean driver replays them as label sequences "
+                "phase1; phase2; pub|rm|clear; phase2 ... of Model/MapExpiry.lean")
     ctx.assumptions = [
-        "the phase-1/phase-2 interleavings are not driven on the real code (would need an add-only hook between the phases); "
-        "on the real code only the sequential, clock-driven behaviour is compared; the interleaving claim is carried by the "
-        "Lean theorems over the model's labels",
+        "interleavings driven on the real code are those reachable through the event handler as a gate: an operation "
+        "between two phase-2 regions of one sweep (after phase 1) and a concurrent publish during the removal's dispatch; "
+        "an operation between phase 1 and the FIRST phase-2 region cannot be placed without a source hook and is covered "
+        "by the Lean theorems over the model's labels only",
         "publishes are at least 1 ms apart (two keys of a channel never share a deadline)",
         "stream TTL / meta TTL sweeps are outside the model (StreamTTL = 1h in the harness)"]
     proofs_ok = ctx.lean_obligations()
@@ -177,8 +263,10 @@ def run(ctx):
     else:
         corpus = [l.rstrip("\n") for l in open(os.path.join(HERE, "corpus.ops")) if l.strip() and not l.startswith("#")]
         ops = list(corpus)
-        for _ in range(ctx.scale(600, 10000)):
+        for _ in range(ctx.scale(500, 10000)):
             ops += gen_scenario(ctx.rng)
+        for _ in range(ctx.scale(400, 6000)):
+            ops += gen_hook_scenario(ctx.rng)
 
     def nontrivial(lines, im):
         exp = sum(1 for o in im if o.startswith("sw=") and not o.startswith("sw=- "))
